@@ -321,16 +321,7 @@ class Parser:
         tok = stream.next_token()
         expr = self.parse_filter_expression(stream)
 
-        if isinstance(expr, FunctionExtension):
-            func = self.env.function_extensions.get(expr.name)
-            if (
-                func
-                and isinstance(func, FilterFunction)
-                and func.return_type == ExpressionType.VALUE
-            ):
-                raise JSONPathTypeError(
-                    f"result of {expr.name}() must be compared", token=tok
-                )
+        self._raise_for_uncompared_function(expr, tok)
 
         if isinstance(expr, FilterExpressionLiteral):
             raise JSONPathSyntaxError(
@@ -398,13 +389,9 @@ class Parser:
     def parse_prefix_expression(self, stream: TokenStream) -> Expression:
         tok = stream.next_token()
         assert tok.type_ == TokenType.NOT
-        return PrefixExpression(
-            tok,
-            operator="!",
-            right=self.parse_filter_expression(
-                stream, precedence=self.PRECEDENCE_PREFIX
-            ),
-        )
+        right = self.parse_filter_expression(stream, precedence=self.PRECEDENCE_PREFIX)
+        self._raise_for_uncompared_function(right, tok)
+        return PrefixExpression(tok, operator="!", right=right)
 
     def parse_infix_expression(
         self, stream: TokenStream, left: Expression
@@ -418,6 +405,9 @@ class Parser:
             self._raise_for_non_comparable_function(left, tok)
             self._raise_for_non_comparable_function(right, tok)
             return ComparisonExpression(tok, left, operator, right)
+
+        self._raise_for_uncompared_function(left, tok)
+        self._raise_for_uncompared_function(right, tok)
 
         if isinstance(left, FilterExpressionLiteral):
             raise JSONPathSyntaxError(
@@ -665,6 +655,18 @@ class Parser:
 
     def _is_low_surrogate(self, codepoint: int) -> bool:
         return codepoint >= 0xDC00 and codepoint <= 0xDFFF
+
+    def _raise_for_uncompared_function(self, expr: Expression, token: Token) -> None:
+        """Raise if _expr_ is a ValueType function call used as a test expression."""
+        if isinstance(expr, FunctionExtension):
+            func = self.env.function_extensions.get(expr.name)
+            if (
+                isinstance(func, FilterFunction)
+                and func.return_type == ExpressionType.VALUE
+            ):
+                raise JSONPathTypeError(
+                    f"result of {expr.name}() must be compared", token=token
+                )
 
     def _raise_for_non_comparable_function(
         self, expr: Expression, token: Token
